@@ -124,7 +124,9 @@ func (g *hp) def() string {
 		n1, n2, n3, n4 := g.name("o"), g.name("o"), g.name("m"), g.name("m")
 		g.objs = append(g.objs, n1, n2)
 		g.maps = append(g.maps, n3, n4)
-		return fmt.Sprintf("bad := {\"==\": m{|o| raise ValueErr.new(\"eqboom\")}}\n%s := {a: bad, b: 1, c: 2, d: 3, e: 4}\n%s := {a: bad, b: 9, c: 2, d: 8, e: 4}\n%s := %%{1: bad, 2: 1, 3: 2, \"k\": 3}\n%s := %%{1: bad, 2: 7, 3: 2, \"k\": 6}\n(%s == %s).p\n(%s == %s).p",
+		// (both user-defined `==` call the simulated callee: how often and in which order element
+		// comparisons happen is part of the observable behaviour)
+		return fmt.Sprintf("bad := {\"==\": m{|o| S(900); raise ValueErr.new(\"eqboom\")}}\nloud := {\"==\": m{|o| S(901); true}}\n%s := {a: bad, b: 1, c: loud, d: 3, e: 4}\n%s := {a: bad, b: 9, c: loud, d: 8, e: 4}\n%s := %%{1: bad, 2: 1, 3: loud, \"k\": 3}\n%s := %%{1: bad, 2: 7, 3: loud, \"k\": 6}\n(%s == %s).p\n(%s == %s).p",
 			n1, n2, n3, n4, n1, n2, n3, n4)
 	}
 	switch g.t.Pick(4, 3, 3, 1, 1) {
